@@ -211,6 +211,12 @@ class LinearOperator(Operator[torch.Tensor, tuple[torch.Tensor]]):
             return self
         elif isinstance(self, mrpro.operators.IdentityOp):
             return other
+        elif isinstance(other, mrpro.operators.ZeroOp) and not other.keep_shape:
+            # the scalar zero returned by ZeroOp cannot be passed through self, and A @ 0 = 0
+            return other
+        elif isinstance(self, mrpro.operators.ZeroOp) and not self.keep_shape and isinstance(other, LinearOperator):
+            # 0 @ A = 0; the adjoint of a composition would pass the scalar zero through A.H
+            return self
         elif isinstance(other, LinearOperator):
             # LinearOperator@LinearOperator is linear
             return LinearOperatorComposition(self, other)
